@@ -360,6 +360,8 @@ class Ctx:
             self.path.add(t > lift(lo) if lo_open else t >= lift(lo))
         if hi is not None:
             self.path.add(t < lift(hi) if hi_open else t <= lift(hi))
+        if lo is not None and hi is not None:
+            self.path.__dict__.setdefault("bounds", {})[name] = (Fraction(lo), Fraction(hi))
         self.path.model = None
         return Sym(t)
 
@@ -654,18 +656,27 @@ def _falsify_by_sampling(p, ctx, tries=24):
     ints = [-3, -2, -1, 0, 1, 2, 3, 5, 7, 10, 100]
     p.s.set("timeout", 1000)
     try:
-        return _sample_loop(p, rnd, ints, tries)
+        m = _sample_loop(p, rnd, ints, tries)
+        if m is None and getattr(p, "bounds", None):
+            # inputs declared with a (narrow) interval: a few more ground instances from inside it
+            m = _sample_loop(p, rnd, ints, min(tries, 8), inside=True)
+        return m
     finally:
         p.s.set("timeout", int(p.opts.get("query_timeout_ms", 10000)))
 
 
-def _sample_loop(p, rnd, ints, tries):
+def _sample_loop(p, rnd, ints, tries, inside=False):
+    bounds = getattr(p, "bounds", None) or {}
     for k in range(tries):
         p.s.push()
         try:
             for name, t in p.inputs.items():
                 if z3.is_int(t):
                     p.s.add(t == rnd.choice(ints))
+                elif z3.is_real(t) and inside and name in bounds:
+                    lo, hi = bounds[name]
+                    v = lo + (hi - lo) * Fraction(rnd.choice([1, 2, 3, 4, 5, 6, 7]), 8)
+                    p.s.add(t == z3.RealVal(str(v)))
                 elif z3.is_real(t):
                     num = rnd.choice([-7, -5, -3, -2, -1, 1, 2, 3, 5, 7, 11, 13])
                     den = rnd.choice([1, 1, 2, 3, 4, 5, 8, 10])
